@@ -9,7 +9,7 @@ use refmodel::sgr::{self, SgrState, UlMode};
 
 /// Representative attribute groups for the exhaustive part: (text, underline class).
 /// underline class: 0 = not underline related, 1 = plain on, 2..5 = style n, 9 = 4:0 (off)
-pub const GROUPS: [(&str, u8); 50] = [
+pub const GROUPS: [(&str, u8); 58] = [
     ("0", 0),
     ("", 0),
     ("1", 0),
@@ -59,6 +59,16 @@ pub const GROUPS: [(&str, u8); 50] = [
     ("38:5:196:1", 0),
     ("58:5:33:0", 0),
     ("48:5:7:4:3", 0),
+    // codes beyond 255 whose low byte is a known code, and colon-form colours of a type other than 2 / 5 (T.416 CMY, CMYK,
+    // transparent ...): codes without a representation, nothing changes
+    ("256", 0),
+    ("257", 0),
+    ("286", 0),
+    ("304", 0),
+    ("65535", 0),
+    ("38:3:1:2:3", 0),
+    ("58:4:0:9:9:9", 0),
+    ("48:1", 0),
     // underline styles the type cannot express (two readings, see check_text)
     ("4:6", 1),
     ("4:8", 1),
@@ -310,6 +320,20 @@ pub fn run(cfg: &Cfg) -> Stats {
             // ... and a sequence that is cut off by the line break and never finished before the next one starts
             for tail in ["\x1b[31\n\x1b[32mtext", "\x1b[3\n\x1b[1mtext", "\x1b]0;ti\ntle\x07text", "\x1b[38;5\n\x1b[4mtext"] {
                 eval(format!("one{tail}").as_bytes(), &[], &mut st, true, "whitespace-control-inside-sequence");
+            }
+        }
+        // a sequence abandoned while a ':' group is open (ESC restart, CAN, SUB, a private marker that turns it into an
+        // ignored sequence, parameter overflow), then ordinary sequences
+        if shard == 0 {
+            for open in ["4:3", "38:5:", "38:2:1:2", "1;4:", "58:5:9:", "1;2;3;4;5;6;7;8;9;10;11;12;13;14;15;16;17;18;19;20;21;22;23;24;25;26;27;28;29;30;31:1:2:3"] {
+                for abort in ["\x1b", "\x18", "\x1a", "<m", "\x1b\x18"] {
+                    for after in ["\x1b[1m", "\x1b[31;4:3m", "x\x1b[38:5:9m"] {
+                        let d = format!("a\x1b[{open}{abort}{after}red\x1b[0my");
+                        eval(d.as_bytes(), &[], &mut st, true, "abandoned-with-open-colon-group");
+                        let cut = 3 + open.len() + abort.len();
+                        eval(d.as_bytes(), &[cut], &mut st, true, "abandoned-with-open-colon-group");
+                    }
+                }
             }
         }
         // sequences that never reach a dispatch, or reach it in an overflowed state, followed by an ordinary SGR sequence:
